@@ -76,6 +76,16 @@ def parse_log(text):
         m = re.search(r'Verification Time: ([\d.]+)s', body)
         if m:
             r['time_s'] = float(m.group(1))
+        m = re.search(r'size of program expression: (\d+) steps', body)
+        if m:
+            r['steps'] = int(m.group(1))
+        m = re.search(r'Generated (\d+) VCC\(s\), (\d+) remaining after simplification', body)
+        if m:
+            r['vccs'] = int(m.group(1))
+            r['vccs_remaining'] = int(m.group(2))
+        m = re.search(r'(\d+) variables, (\d+) clauses', body)
+        if m:
+            r['sat_variables'], r['sat_clauses'] = int(m.group(1)), int(m.group(2))
         if 'Status: ERROR' in body or 'out of memory' in body.lower() or 'CBMC failed' in body:
             r['status'] = 'error'
         res[name] = r
@@ -140,6 +150,8 @@ def run_property(S, prop):
     only = os.environ.get('VERIF_ONLY')
     if only:
         reg = [h for h in reg if re.search(only, h['id'])]
+    if os.environ.get('VERIF_NO_KANI'):       # development aid (the run is then not recorded as evidence)
+        reg = []
     if not reg:
         return
     _ensure_lock()
@@ -191,6 +203,12 @@ def run_property(S, prop):
                    'bounds': h.get('bounds', ''), 'functions': h.get('functions', []), 'unwind': h.get('unwind'),
                    'solver_s': (r or {}).get('time_s'), 'engine': 'K (cargo kani / CBMC, cadical)'}
             S.queries += 1
+            if r is not None:
+                S.k_steps = getattr(S, 'k_steps', 0) + r.get('steps', 0)
+                S.k_vccs = getattr(S, 'k_vccs', 0) + r.get('vccs', 0)
+                for kk in ('steps', 'vccs', 'vccs_remaining', 'sat_variables', 'sat_clauses'):
+                    if kk in r:
+                        rec['cbmc_' + kk] = r[kk]
             if r is None:
                 rec['verdict'] = 'inconclusive'
                 tail = j.log[-600:].replace('\n', ' | ')
